@@ -214,6 +214,10 @@ func (tp *TableParser) parseTableColumns(cols []tableColXML) []float64 {
 			if r, err := strconv.Atoi(col.NumberRepeated); err == nil && r > 0 {
 				repeat = r
 			}
+			// The count comes from the file and sizes the column list
+			if repeat > maxTableSpan {
+				repeat = maxTableSpan
+			}
 		}
 
 		for i := 0; i < repeat; i++ {
@@ -265,12 +269,19 @@ func (tp *TableParser) parseCell(cell tableCellXML) ParsedTableCell {
 		if span, err := strconv.Atoi(cell.NumberColumnsSpanned); err == nil && span > 0 {
 			parsed.ColSpan = span
 		}
+		// Spans come from the file and size the grid
+		if parsed.ColSpan > maxTableSpan {
+			parsed.ColSpan = maxTableSpan
+		}
 	}
 
 	// Parse row span
 	if cell.NumberRowsSpanned != "" {
 		if span, err := strconv.Atoi(cell.NumberRowsSpanned); err == nil && span > 0 {
 			parsed.RowSpan = span
+		}
+		if parsed.RowSpan > maxTableSpan {
+			parsed.RowSpan = maxTableSpan
 		}
 	}
 
@@ -467,3 +478,7 @@ func (pt *ParsedTable) ToModelTable() *model.Table {
 
 	return table
 }
+
+// maxTableSpan bounds the column repetitions and the cell spans read from a
+// document: they size the table grid, and no text table comes near this width.
+const maxTableSpan = 1024
